@@ -339,7 +339,7 @@ def run(ctx):
     conv = {'RP66V1': RT.single_rp66v1_file_to_las, 'LIS': LT.single_lis_file_to_las, 'BIT': BT.single_bit_path_to_las_path}
     ext = {'RP66V1': '.dlis', 'LIS': '.lis', 'BIT': '.bit'}
     traces, meta = [], []
-    nfiles = ctx.pick(70, 700)
+    nfiles = ctx.pick(70, 1500)
     for fi in range(nfiles):
         for fmt in ('RP66V1', 'LIS', 'BIT'):
             if fmt == 'RP66V1':
@@ -493,7 +493,9 @@ def run(ctx):
     ctx.assumptions += ['RP66V1 ORIGIN carries CREATION-TIME, COMPANY, WELL-NAME, FIELD-NAME, PRODUCER-NAME (the converter reads them)',
                         'X values unique per pass and exactly representable; formats with >= 1 decimal where X has halves/eighths',
                         'channel names without spaces inside; LIS channels are not dipmeter sub-channel codes',
-                        'an empty selection may be reported as a failed conversion or a file without rows']
+                        'an empty selection may be reported as a failed conversion or a file without rows',
+                        'slice steps >= 1: the selector property (C15) and the LIS frame loader define positive steps only; with a negative step the RP66V1 '
+                        'converter writes the frames in reverse order, the LIS and BIT converters do not support it (not judged)']
     ctx.explanation = ('TLC decides which converter designs refine ToLasAbs (and refutes the as-found ones); real conversions of generated '
                        'RP66V1/LIS/BIT files validated as traces; printed values vs recorded content; outputs through LASRead')
 
